@@ -1348,6 +1348,7 @@ func (c *seqCtx) deleteBucketNamed(h *handle, n *node, name string) {
 		if !c.check("DeleteBucket", "write", cls, "ok") {
 			return
 		}
+		old := n.sub[name]
 		delete(n.sub, name)
 		c.cnt["existing_buckets_deleted"]++
 		pk := pathKey(h.path)
@@ -1362,7 +1363,30 @@ func (c *seqCtx) deleteBucketNamed(h *handle, n *node, name string) {
 		if c.rng.Chance(1, 3) {
 			// re-create at once: the new bucket must be empty, whatever the deleted one contained
 			c.count("delete_then_recreate_scenarios")
-			c.newBucketNamed(h, n, name)
+			nh := c.newBucketNamed(h, n, name)
+			// ... and so must every nested bucket of the deleted subtree when it is created again under the same name
+			var again func(ph *handle, pn *node, on *node, depth int)
+			again = func(ph *handle, pn *node, on *node, depth int) {
+				if ph == nil || pn == nil || on == nil || depth > 2 || c.failed {
+					return
+				}
+				names := make([]string, 0, len(on.sub))
+				for cn := range on.sub {
+					names = append(names, cn)
+				}
+				sort.Strings(names)
+				for _, cn := range names {
+					if c.failed || pn.sub[cn] != nil {
+						continue
+					}
+					c.count("nested_recreate_after_delete")
+					ch := c.newBucketNamed(ph, pn, cn)
+					again(ch, pn.sub[cn], on.sub[cn], depth+1)
+				}
+			}
+			if nh != nil && !c.failed {
+				again(nh, n.sub[name], old, 1)
+			}
 		} else if st := c.slotFor(sp); st != nil && c.rng.Chance(4, 5) {
 			c.forceStale = st
 		}
@@ -1935,7 +1959,7 @@ func main() {
 	logging.Init(filepath.Join(run.Scratch, "log"), "c19", "error", 1, true)
 	run.Assume("reference = tree of Go maps with a working copy per write transaction; edge semantics E1-E10 (header of cmd/c19/main.go) taken from db.go/leveldb.go/db_test.go as 'rejected, no state change'")
 	run.Assume("result order of GetByPrefix/BucketNames is not judged; results of operations through a handle whose bucket does not exist are not judged (only their effect on existing and later-created buckets)")
-	nSeq := run.N(300, 20000)
+	nSeq := run.N(1200, 20000)
 	nOps := run.N(60, 120)
 	root := run.Rng()
 	groups := (nSeq + perStore - 1) / perStore
@@ -1977,5 +2001,5 @@ func main() {
 			run.Inconclusive("no commit, rollback or reopen was exercised")
 		}
 	}
-	run.Finish("case = one seeded operation sequence (quick 60, thorough 120 operations) over nested buckets of the real leveldb store with adversarial names/keys, 10 sequences per store under own top-level names; distinct by hash of the operation list; non-trivial = at least one commit with >= 2 buckets and >= 3 keys of the sequence alive, and at least one rollback or reopen", run.N(150, 10000))
+	run.Finish("case = one seeded operation sequence (quick 60, thorough 120 operations) over nested buckets of the real leveldb store with adversarial names/keys, 10 sequences per store under own top-level names; distinct by hash of the operation list; non-trivial = at least one commit with >= 2 buckets and >= 3 keys of the sequence alive, and at least one rollback or reopen", run.N(600, 10000))
 }
